@@ -1,9 +1,9 @@
 SPECIFICATION MCSpec
-CONSTANTS Cids <- MCCids2
+CONSTANTS Cids <- MCCidsA
           Devs = {}
           MaxCalls = 1
           MaxActive = 1
           MaxDl = 2
-INVARIANTS TypeOK RejectedNeverTouched OnlyRequested GetBlockExact SelfCertified CachedBeforeHandOff LocalNotFetched
+INVARIANTS TypeOK RejectedNeverTouched OnlyRequested GetBlockExact SelfCertified CachedBeforeHandOff ReadyCached LocalNotFetched
            P_RejectedNeverTouched P_OnlyRequested P_GetBlockExact P_SelfCertified
 CHECK_DEADLOCK FALSE
